@@ -1,13 +1,16 @@
 #!/bin/sh
 # usage: tools/selftest.sh <property> <patch> [tier]
-# Applies a mutant patch to /repo, runs the property's check, undoes the patch.
-# Prints CAUGHT / MISSED. Never leaves /repo modified.
+# Applies a mutant patch to the rpki-rs checkout this framework copy is linked against
+# (/repo for /verif itself; a scratch worktree for a copy made with tools/mkworkspace.sh),
+# runs the property's check, undoes the patch. Prints CAUGHT / MISSED. Never leaves the checkout modified.
 id="$1"; patch="$2"; tier="${3:-quick}"
-cd /verif
-if ! git -C /repo diff --quiet; then echo "repo dirty, refusing"; exit 3; fi
-case "$patch" in /*) ;; *) patch="/verif/$patch";; esac
-if ! git -C /repo apply "$patch"; then echo "patch does not apply: $patch"; exit 3; fi
+root="$(cd "$(dirname "$0")/.." && pwd)"
+repo=$(sed -n 's/^rpki *= *{ *path *= *"\([^"]*\)".*/\1/p' "$root/harness/Cargo.toml")
+cd "$root"
+case "$patch" in /*) ;; *) patch="$root/$patch";; esac
+if ! git -C "$repo" diff --quiet; then echo "repo dirty, refusing"; exit 3; fi
+if ! git -C "$repo" apply "$patch"; then echo "patch does not apply: $patch"; exit 3; fi
 out=$(./check "$id" "$tier" 2>&1); rc=$?
-git -C /repo checkout -- . 
+git -C "$repo" checkout -- .
 echo "$out" | grep -E "VIOLATION|KNOWN-FINDING|INCONCLUSIVE|HELD" | head -8
 if [ $rc -eq 1 ]; then echo "CAUGHT $id $(basename $patch) tier=$tier"; else echo "MISSED $id $(basename $patch) tier=$tier rc=$rc"; fi
